@@ -480,6 +480,7 @@ fn main() {
         "gen" => gen(&a),
         "search" => search(&a),
         "probe" => probe(&a),
+        "probe2" => probe2(),
         _ => { eprintln!("c12: unknown mode"); std::process::exit(2); }
     }
 }
@@ -573,4 +574,37 @@ fn probe(a: &Args) {
         }
     }
     let _ = std::fs::remove_dir_all(&dir);
+}
+
+fn probe2() {
+    for pk in [true, false] {
+        let dir = tmp_dir("probe2");
+        let _ = std::fs::remove_dir_all(&dir);
+        let db = Database::create(dir.join("db")).unwrap();
+        let ddl = if pk { "CREATE TABLE t (id INTEGER PRIMARY KEY AUTO_INCREMENT, v INTEGER NOT NULL)" } else { "CREATE TABLE t (id INTEGER AUTO_INCREMENT, v INTEGER NOT NULL)" };
+        db.execute(ddl).unwrap();
+        let stmt = db.prepare("INSERT INTO t VALUES (?, ?)").unwrap();
+        let ids = [OwnedValue::Null, OwnedValue::Null, OwnedValue::Int(7), OwnedValue::Null];
+        for (i, id) in ids.iter().enumerate() {
+            let r = stmt.bind(id.clone()).bind(OwnedValue::Int(100 + i as i64)).execute(&db);
+            println!("pk={} exec {} id={:?} -> {:?}", pk, i, id, r.map(|_| "ok").map_err(|e| format!("{:#}", e)));
+            println!("    table: {:?}", db.query("SELECT id, v FROM t").map(|rows| rows.iter().map(|r| format!("{:?}", r.values)).collect::<Vec<_>>()));
+        }
+        let r = db.execute("INSERT INTO t (v) VALUES (200), (201), (202), (203), (204), (205), (206), (207) RETURNING id");
+        println!("  sql insert -> {:?}", r.map(|x| format!("{:?}", x)).map_err(|e| format!("{:#}", e)));
+        let stmt2 = db.prepare("INSERT INTO t (v) VALUES (?)").unwrap();
+        for i in 0..3 {
+            let r = stmt2.bind(OwnedValue::Int(300 + i)).execute(&db);
+            println!("  partial exec {} -> {:?}", i, r.map(|_| "ok").map_err(|e| format!("{:#}", e)));
+        }
+        println!("    table: {:?}", db.query("SELECT id, v FROM t").map(|rows| rows.iter().map(|r| format!("{:?}", r.values)).collect::<Vec<_>>()));
+        // insert_batch with explicit ids
+        let r = db.insert_batch("t", &[vec![OwnedValue::Int(50), OwnedValue::Int(400)], vec![OwnedValue::Null, OwnedValue::Int(401)]]);
+        println!("  insert_batch -> {:?}", r.map_err(|e| format!("{:#}", e)));
+        println!("    table: {:?}", db.query("SELECT id, v FROM t").map(|rows| rows.iter().map(|r| format!("{:?}", r.values)).collect::<Vec<_>>()));
+        let r = db.execute("INSERT INTO t (v) VALUES (500) RETURNING id");
+        println!("  sql insert -> {:?}", r.map(|x| format!("{:?}", x)).map_err(|e| format!("{:#}", e)));
+        drop(db);
+        let _ = std::fs::remove_dir_all(&dir);
+    }
 }
